@@ -3,7 +3,14 @@ CPU without KeOps), the label stub kernel that binds LazyKernel.tla to the real 
 generators.  Everything is float64; hyperparameters are randomised (seeded) and PAIRWISE DISTINCT over the whole kernel
 instance (every ARD component, every batch element, every member of a composition: assert_distinct), so that no
 relation can hold by a symmetry of the parameters; c06.py additionally probes that the distinct values are visible
-(permuting the input columns of an ARD kernel / swapping the batch elements changes the matrix)."""
+(permuting the input columns of an ARD kernel / swapping the batch elements changes the matrix).
+
+Data geometry (LazyKernel.tla, "the data lattice"): geo_inputs realises the point classes of the spec (origin, unit, lattice,
+generic; coincident = the same point twice in an input, shared = the same point in x1 and x2) in the input space of every
+zoo kernel - the origin and the unit point live in the ACTIVE subspace of the kernel, the lattice point is the kernel's own
+(a whole number of periods away from generic point 3, an exact grid node, an inducing point, the boundary of the support
+around point 3, the largest task index, another one-hot row, otherwise the antipode of point 3).  Every realised point is a
+point of the kernel's domain (the one-hot kernel gets one-hot rows only: its origin is the first word of the vocabulary)."""
 import zlib
 
 import torch
@@ -100,8 +107,13 @@ def label_inputs(shape_b, n, col=0):
 # ---------------------------------------------------------------------------------------------------------------
 # the zoo.  make(PB, ad, d) -> kernel over d feature columns (after active_dims selection the kernel sees len(ad)).
 class Z:
-    def __init__(self, name, make, t=1, batch=True, xkind="real", ad=True, sym=True, diag=True, stack=True, quick=False, eval_mode=False, d=D_FULL, ard=False, xscale=1.0):
+    def __init__(self, name, make, t=1, batch=True, xkind="real", ad=True, sym=True, diag=True, stack=True, quick=False, eval_mode=False, d=D_FULL, ard=False, xscale=1.0,
+                 unit="axis", cusp=False):
         self.name, self.make, self.t, self.batch, self.xkind, self.d = name, make, t, batch, xkind, d
+        # not differentiable at distance 0 (exp(-d/l) with d = sqrt(squared distance)): between two rows that are the SAME point the rounding
+        # error of the squared distance (1e-17, different in every call: mean centring) enters with its square root (3e-9)
+        self.cusp = cusp
+        self.unit = unit  # the unit point: a coordinate axis vector (a one-hot row), or - "sphere" - a point of norm 1 without zero coordinates
         self.xscale = xscale  # inputs are drawn from [-xscale, xscale]^d (compactly supported kernels need points closer than a lengthscale)
         self.ard = ard  # per-dimension parameters: permuting the input columns must change the matrix (probe of c06.py)
         self.ad, self.sym, self.diag, self.stack, self.quick, self.eval_mode = ad, sym, diag, stack, quick, eval_mode
@@ -132,7 +144,7 @@ def zoo():
 
     add("RBF", lambda PB, ad, d: gk.RBFKernel(**_kw(PB, ad)), quick=True)
     add("RBF-ard", lambda PB, ad, d: gk.RBFKernel(ard_num_dims=_dim(d, ad), **_kw(PB, ad)), ard=True)
-    add("Matern0.5", lambda PB, ad, d: gk.MaternKernel(nu=0.5, **_kw(PB, ad)))
+    add("Matern0.5", lambda PB, ad, d: gk.MaternKernel(nu=0.5, **_kw(PB, ad)), cusp=True)
     add("Matern1.5", lambda PB, ad, d: gk.MaternKernel(nu=1.5, **_kw(PB, ad)))
     add("Matern2.5-ard", lambda PB, ad, d: gk.MaternKernel(nu=2.5, ard_num_dims=_dim(d, ad), **_kw(PB, ad)), quick=True, ard=True)
     add("RQ", lambda PB, ad, d: gk.RQKernel(**_kw(PB, ad)))
@@ -146,6 +158,12 @@ def zoo():
     add("SpectralMixture", lambda PB, ad, d: gk.SpectralMixtureKernel(num_mixtures=2, ard_num_dims=_dim(d, ad), **_kw(PB, ad)))
     add("RFF", lambda PB, ad, d: gk.RFFKernel(num_samples=4, num_dims=_dim(d, ad), **_kw(PB, ad)))
     add("Arc", lambda PB, ad, d: gk.ArcKernel(gk.MaternKernel(nu=2.5), ard_num_dims=_dim(d, ad), **_kw(PB, ad)))
+    # the cylindrical kernel lives on the unit ball: generic points well inside, the unit point on the sphere, the origin at the centre
+    add("Cylindrical(Matern)", lambda PB, ad, d: gk.CylindricalKernel(3, gk.MaternKernel(nu=2.5, batch_shape=_bs(PB)), **_kw(PB, ad)), xscale=0.5, quick=True, unit="sphere")
+    add("Cylindrical(Scale(RBF))", lambda PB, ad, d: gk.CylindricalKernel(4, gk.ScaleKernel(gk.RBFKernel(batch_shape=_bs(PB)), batch_shape=_bs(PB)), **_kw(PB, ad)),
+        xscale=0.5, unit="sphere")
+    add("SpectralDelta", lambda PB, ad, d: gk.SpectralDeltaKernel(num_dims=_dim(d, ad), num_deltas=5, **_kw(PB, ad)))
+    add("GaussianSymmetrizedKL", lambda PB, ad, d: gk.GaussianSymmetrizedKLKernel(batch_shape=_bs(PB)), ad=False, d=4)
     add("Scale(RBF)", lambda PB, ad, d: gk.ScaleKernel(gk.RBFKernel(batch_shape=_bs(PB)), **_kw(PB, ad)), quick=True)
     add("Scale(Matern[ad])", lambda PB, ad, d: gk.ScaleKernel(gk.MaternKernel(nu=1.5, **_kw(PB, ad)), batch_shape=_bs(PB)))
     add("Sum(RBF,Linear)", lambda PB, ad, d: gk.AdditiveKernel(gk.RBFKernel(**_kw(PB, ad)), gk.LinearKernel(**_kw(PB, ad))))
@@ -248,3 +266,115 @@ def inputs(z, shape_b, n, seed):
         idx = torch.randint(0, 3, (*shape_b, n), generator=g)
         return torch.nn.functional.one_hot(idx, 3).double()
     return (torch.rand(*shape_b, n, D_FULL, generator=g, dtype=torch.float64) * 2.0 - 1.0) * z.xscale
+
+
+# ---------------------------------------------------------------------------------------------------------------
+# data geometry: the point classes of LazyKernel.tla realised in the input space of a zoo kernel
+POINT_CLASS = {0: "origin", 1: "unit", 2: "lattice", 3: "generic", 4: "generic"}
+
+
+def _generic(z, g, n, dfull):
+    if z.xkind == "index":
+        return torch.randint(0, 4, (n, dfull), generator=g).double()
+    if z.xkind == "onehot":
+        return torch.nn.functional.one_hot(torch.randint(0, 3, (n,), generator=g), 3).double()
+    return (torch.rand(n, dfull, generator=g, dtype=torch.float64) * 2.0 - 1.0) * z.xscale
+
+
+def _first(t):
+    """the parameter of the first batch element as a 1-d tensor"""
+    t = t.detach()
+    return t.reshape(-1, t.shape[-1])[0] if t.dim() > 0 else t.reshape(1)
+
+
+def lattice_point(z, k, anchor):
+    """The kernel's own special position relative to the generic point `anchor` (a vector of the ACTIVE subspace)."""
+    da = anchor.shape[0]
+    if z.xkind == "index":
+        return torch.full((da,), 3.0, dtype=torch.float64)  # the largest task index
+    if z.xkind == "onehot":
+        return anchor.roll(1)  # another row of the vocabulary
+    mods = list(k.modules())
+    for m in mods:
+        if isinstance(m, gk.GridInterpolationKernel):
+            return torch.stack([m.grid[j][min(3 + j, m.grid[j].numel() - 2)].detach().double() for j in range(da)])  # an exact grid node
+        if isinstance(m, gk.InducingPointKernel):
+            return m.inducing_points.detach().double()[1].clone()  # an inducing point
+    for m in mods:
+        if hasattr(m, "period_length"):
+            e0 = torch.zeros(da, dtype=torch.float64)
+            e0[0] = 2.0 * float(_first(m.period_length)[0])
+            return anchor + e0  # two whole periods away along the first active dimension (a resonance of the periodic and of the cosine kernel)
+    for m in mods:
+        if isinstance(m, gk.PiecewisePolynomialKernel):
+            e0 = torch.zeros(da, dtype=torch.float64)
+            e0[0] = float(_first(m.lengthscale)[0])
+            return anchor + e0  # exactly on the boundary of the support around the anchor
+    return -anchor  # the antipode (cosine similarity -1)
+
+
+def unit_point(z, da, b):
+    if z.xkind == "onehot":
+        return torch.eye(da, dtype=torch.float64)[1 + b % 2].clone()  # another word of the vocabulary
+    if z.unit == "sphere" and da > 1:
+        v = torch.tensor([2.0, 1.0 + (b % 2), 2.0][:da], dtype=torch.float64)
+        v = v / v.norm()
+        while float(v.norm()) > 1.0 - 2.0 ** -50:  # on the sphere up to a few ulp, never outside the ball in whatever order the norm is summed
+            v = v * (1.0 - 2.0 ** -51)
+        return v
+    return torch.eye(da, dtype=torch.float64)[(da - 1 - b) % da].clone()
+
+
+def geo_points(z, k, ad, nb, seed):
+    """coordinates[b][id] (full rows of width dfull) of the five points in each of nb batch elements"""
+    dfull = z.d if z.d != D_FULL else D_FULL
+    cols = list(ad) if ad is not None else list(range(dfull))
+    out = []
+    g0 = torch.Generator().manual_seed(seed_of("geo-origin", seed))
+    row0 = _generic(z, g0, 1, dfull)[0]
+    row0[cols] = 0.0
+    if z.xkind == "onehot":
+        row0[0] = 1.0  # a one-hot kernel is defined on one-hot rows only: its 'origin' is the first word of the vocabulary, not the zero row
+    for b in range(nb):
+        g = torch.Generator().manual_seed(seed_of("geo", seed, b))
+        base = _generic(z, g, 5, dfull)  # generic rows; rows 0..2 donate the inactive coordinates of the special points
+        pts = {0: row0.clone(), 3: base[3].clone(), 4: base[4].clone()}
+        u = base[1].clone()
+        u[cols] = unit_point(z, len(cols), b)
+        pts[1] = u
+        l = base[2].clone()
+        l[cols] = lattice_point(z, k, base[3][cols].clone())
+        pts[2] = l
+        out.append(pts)
+    return out
+
+
+def geo_inputs(z, k, ad, shape_b, rows, seed):
+    """x of shape (*shape_b, len(rows), dfull): batch element b (flat) holds the points rows[(i + b) % n] of that batch element (GeoX of
+    LazyKernel.tla).  The same (kernel, seed) gives the same points for x1 and x2, so that equal ids are equal rows."""
+    n = len(rows)
+    nb = 1
+    for s in shape_b:
+        nb *= s
+    pts = geo_points(z, k, ad, nb, seed)
+    x = torch.stack([torch.stack([pts[b][int(rows[(i + b) % n])] for i in range(n)]) for b in range(nb)])
+    return x.reshape(*shape_b, n, x.shape[-1])
+
+
+def label_rows(shape_b, rows):
+    """the labels GeoX of LazyKernel.tla gives the rows: tensor of shape (*shape_b, n)"""
+    n = len(rows)
+    nb = 1
+    for s in shape_b:
+        nb *= s
+    lab = [[(0 if int(rows[(i + b) % n]) == 0 else int(rows[(i + b) % n]) + 8 * b) for i in range(n)] for b in range(nb)]
+    return torch.tensor(lab, dtype=torch.float64).reshape(*shape_b, n)
+
+
+def label_inputs_from(labels, col=0):
+    """x of shape (*labels.shape, D_FULL) whose column `col` holds the given row labels"""
+    x = torch.zeros(*labels.shape, D_FULL, dtype=torch.float64)
+    for c, v in zip(range(D_FULL), (0.75, 0.25, -0.5)):
+        x[..., c] = v
+    x[..., col] = labels
+    return x
